@@ -193,6 +193,15 @@ func (app *App) processSubAppsRoutes() {
 				continue
 			}
 
+			// The mounted app must have spliced in its own sub-apps before its stack is copied.
+			// The loop over appList above does not reach an app that shares its prefix with a
+			// later mount (the map keeps one app per prefix), so do it here as well.
+			if mountedApp := route.group.app; mountedApp.hasMountedApps() {
+				mountedApp.mountFields.subAppsRoutesAdded.Do(func() {
+					mountedApp.processSubAppsRoutes()
+				})
+			}
+
 			// Create a slice to hold the sub-app's routes
 			subRoutes := make([]*Route, len(route.group.app.stack[m]))
 
